@@ -109,6 +109,7 @@ type Exec struct {
 	sealApps []*sealApp
 	fs       *fsModel
 	strIntern map[string]*BNode
+	allowInit *ssa.Function
 }
 
 func (ex *Exec) addAxiom(t *Term) { ex.addPC(t) }
@@ -486,6 +487,7 @@ func (ex *Exec) runPkgInit(pkg *ssa.Package) {
 				panic(r)
 			}
 		}()
+		ex.allowInit = initFn
 		ex.callFunction(initFn, nil, nil)
 	}()
 	ex.frame = savedFrame
@@ -605,6 +607,10 @@ func (ex *Exec) callFunction(fn *ssa.Function, args []Value, binds []Value) (Val
 		ex.res.Models[name] = true
 		return m(ex, fn, args)
 	}
+	if fn.Synthetic == "package initializer" && ex.allowInit != fn {
+		// dependency initialisers are run lazily, when one of their globals is first used
+		return nil, nil
+	}
 	if fn.Blocks == nil {
 		ex.unsupported("external function without model: %s", name)
 	}
@@ -710,7 +716,7 @@ func (ex *Exec) runDefers(fr *Frame) {
 	for len(fr.defers) > 0 {
 		d := fr.defers[len(fr.defers)-1]
 		fr.defers = fr.defers[:len(fr.defers)-1]
-		_, pan := ex.callValue(d.fn, d.args, d.inst)
+		_, pan := ex.callAny(d.fn, d.args, d.inst)
 		if pan != nil {
 			// a panic in a deferred call replaces the current one
 			fr.panicV = pan
@@ -2091,7 +2097,8 @@ func (ex *Exec) chanSend(ch ChanV, v Value) *PanicV {
 	if ch.c.closed {
 		return &PanicV{runtime: true, msg: "send on closed channel", site: ex.frame.fn.String()}
 	}
-	if len(ch.c.buf) < ch.c.cap || (ch.c.cap == 0 && ex.st["rendezvous"] != nil) {
+	if len(ch.c.buf) < ch.c.cap || (ch.c.cap == 0 && ex.envDepth > 0 && len(ch.c.buf) == 0) {
+		// (an unbuffered send from the environment rendezvouses with the waiting receiver)
 		ch.c.buf = append(ch.c.buf, v)
 		return nil
 	}
